@@ -1,0 +1,59 @@
+//! Verification hook points (compiled only with `--cfg rip_verif`).
+//!
+//! A process-global sink receives one call per named point. With no sink
+//! installed a point is a single read-lock + `None` check; nothing here changes
+//! behaviour unless a harness installs a sink and arms a fail point.
+
+use std::cell::Cell;
+use std::sync::{Arc, RwLock};
+
+use serde_json::Value;
+
+pub trait Sink: Send + Sync {
+    /// Called at a named point. May block (gate scheduling). Returning `true`
+    /// from a `fail_point` site makes that site return an injected error.
+    fn point(&self, name: &'static str, actor: u32, fields: Value) -> bool;
+}
+
+static SINK: RwLock<Option<Arc<dyn Sink>>> = RwLock::new(None);
+
+thread_local! {
+    static ACTOR: Cell<u32> = const { Cell::new(0) };
+}
+
+pub fn install(sink: Arc<dyn Sink>) {
+    *SINK.write().expect("verif sink") = Some(sink);
+}
+
+pub fn clear() {
+    *SINK.write().expect("verif sink") = None;
+}
+
+pub fn set_actor(actor: u32) {
+    ACTOR.with(|cell| cell.set(actor));
+}
+
+pub fn actor() -> u32 {
+    ACTOR.with(|cell| cell.get())
+}
+
+fn current() -> Option<Arc<dyn Sink>> {
+    SINK.read().expect("verif sink").clone()
+}
+
+pub fn enabled() -> bool {
+    SINK.read().expect("verif sink").is_some()
+}
+
+pub fn point(name: &'static str, fields: impl FnOnce() -> Value) {
+    if let Some(sink) = current() {
+        let _ = sink.point(name, actor(), fields());
+    }
+}
+
+pub fn fail_point(name: &'static str, fields: impl FnOnce() -> Value) -> bool {
+    match current() {
+        Some(sink) => sink.point(name, actor(), fields()),
+        None => false,
+    }
+}
